@@ -113,6 +113,10 @@ impl HistoryModel {
         s8.extend([ProposeUpdate { by: 0 }, Propose { by: 1, prop: Remove(2) }, c(3, vec![])]);
         let mut s9 = s1.clone();
         s9.push(c(0, vec![Remove(2), Remove(3)]));
+        // five members in an 8-leaf tree, then leaves 1..3 blanked: A _ _ _ E (a joiner lands at
+        // leaf 1 under a parent whose other subtree is entirely blank: filtered direct path)
+        let mut s10 = s2.clone();
+        s10.extend([c(0, vec![Add(4)]), c(4, vec![]), c(0, vec![Remove(1), Remove(2)]), c(0, vec![Remove(3)])]);
         let all: Vec<(&str, Vec<Act>)> = vec![
             ("S0", vec![]),
             ("S1", s1),
@@ -124,6 +128,7 @@ impl HistoryModel {
             ("S7", s7),
             ("S8", s8),
             ("S9", s9),
+            ("S10", s10),
         ];
         let mut out = vec![];
         for (name, acts) in all {
@@ -601,7 +606,7 @@ impl Model for HistoryModel {
     }
 
     fn depth(&self, seed_idx: usize) -> usize {
-        let per_cfg = if self.seeds.is_empty() { 10 } else { self.seeds.len() };
+        let per_cfg = if self.seeds.is_empty() { 11 } else { self.seeds.len() };
         let first_is_s0 = self.seeds.is_empty() || self.seeds[0] == "S0";
         if seed_idx % per_cfg == 0 && first_is_s0 {
             self.depth_initial
